@@ -13,6 +13,7 @@
   graphs incl. cycles, shared and unreferenced types), not proved; signature shape / recovery are C05's theorems.
 -/
 import FFS.Model.Eip712
+import FFS.Props.C05
 namespace FFS.Props.C04
 open FFS FFS.Model.Abi FFS.Model.Eip712
 
@@ -153,5 +154,25 @@ theorem key_order_irrelevant (types : TypeSet) (fuel : Nat) (t : String) (k1 k2 
     (hp : (k1.zip v1).Perm (k2.zip v2)) (hnd : ((k1.zip v1).map (·.1)).Nodup) :
     Model.Eip712.encodeData fuel t (.obj k1 v1) types = Model.Eip712.encodeData fuel t (.obj k2 v2) types :=
   encodeData_by_name types fuel t k1 k2 v1 v2 (fun name => lookupKey_perm k1 k2 v1 v2 name hp hnd)
+
+/-! ### signing typed data -/
+
+/-- **Signing typed data yields a 65-byte R ‖ S ‖ V signature with V ∈ {27, 28} that verifies for the digest against
+    the signer's address** — for every document that hashes, every key and every lawful curve. -/
+theorem typed_data_signature (C : Model.Secp.Curve) (hC : C.Lawful) (k : Nat) (hk : 1 ≤ k ∧ k < C.n) (fuel : Nat)
+    (p : TypedData) (digest : Bytes) (hd : encodeTypedDataV4 fuel p = .ok digest) :
+    ∃ sig : Bytes, signTypedDataV4 C k fuel p = .ok (digest, sig) ∧ sig.length = 65 ∧
+      ∃ v r s : Nat, (v = 27 ∨ v = 28) ∧
+        Model.Secp.decodeCompactRSV sig = .ok { V := some (v : Int), R := some (r : Int), S := some (s : Int) } ∧
+        Model.Secp.recoverDirect C { V := some (v : Int), R := some (r : Int), S := some (s : Int) } digest 0 =
+          .ok (Model.Secp.keyAddress C k) := by
+  obtain ⟨v, r, s, hsig, hv, hr1, hrn, hs1, hsn⟩ := C05.sign_shape C hC k digest
+  have hn := hC.n_lt
+  obtain ⟨b, hb, hlen, hdecode⟩ := C05.compact_roundtrip r s v (by omega) (by omega) (by omega)
+  refine ⟨b, ?_, hlen, v, r, s, hv, hdecode, ?_⟩
+  · simp only [signTypedDataV4, hd, hsig, hb]
+  · have := (C05.recover_sign_all_conventions C hC k hk digest 0 (by constructor <;> decide)).1
+    simp only [hsig] at this
+    exact this
 
 end FFS.Props.C04
